@@ -22,9 +22,9 @@ BASELINE = os.path.join(os.path.dirname(os.path.abspath(__file__)), "baseline_ca
 # a finding that reports the ABSENCE of something (as opposed to a construct that does something wrong)
 ABSENCE = re.compile(r"\b(is not|are not|was not|does not|do not|did not|never|no longer|not written|not the|not built|not read|not set|not call|not closed|not sent|"
                      r"without|no path|nothing|missing|neither|cannot|no final|no response|not yielded|not replay|not rewrite|not consult|not return|not re-emitted|outside|"
-                     r"not forwarded|not stream|not always|instead of|other than|differ|has no|leaves the|is no longer|not guarded|not depend|not recorded|not exactly|"
+                     r"not forwarded|not stream|not always|instead of|other than|differ|differently|different|has no|leaves the|is no longer|not guarded|not depend|not recorded|not exactly|"
                      r"not end|not use|not iterated|not merged|not serialised|not split|not both|not rebuild|not started|not elided|not preferred|not looked|not appended|"
-                     r"although none|by itself|touches the|writes an instance|reaches the header store|can return normally|before start_response|is used on a path where)\b", re.I)
+                     r"although none|where no|by itself|writes an instance|reaches the header store|can return normally|before start_response|is used on a path where)\b", re.I)
 
 
 def _stdlib_method_names() -> Set[str]:
@@ -49,9 +49,19 @@ _STDLIB_METHODS = _stdlib_method_names()
 def is_absence_finding(message: str) -> bool:
     """the STATEMENT of the finding (its first clause - what follows ':' / '(' / ';' explains the consequence) reports that something
     is not done, as opposed to naming a construct that does something wrong"""
-    m = re.sub(r"^(wsgi|asgi)[^:]{0,40}: ", "", message)
-    head = re.split(r": |; | \(", m, 1)[0]
-    return bool(ABSENCE.search(head))
+    m = message
+    for _ in range(3):  # leading labels: "wsgi: ", "asgi handle_all: ", "parse_stream: ", "baize.x:f.g: " (at most three words)
+        mm = re.match(r"^([^:()'`\"]{0,60}(?::[\w.]+)?): +(.*)$", m, re.S)
+        if mm and len(mm.group(1).split()) <= 3:
+            m = mm.group(2)
+        else:
+            break
+    clauses = re.split(r": ", m)
+    first = clauses[0]
+    if len(clauses) > 1 and (re.search(r"[()`\[\]]", first) or re.match(r"\s*(yield|return|await|del)\b", first) or not first.strip()):
+        first = clauses[1]  # the first clause only quotes the construct (`yield from X(...)`: not the response's own iterable)
+    head = re.split(r"; | \(", first, 1)[0]
+    return bool(ABSENCE.search(head)) or bool(re.match(r"\s*no\b", head, re.I))
 
 
 def called_names(fn_node: ast.AST) -> Set[str]:
@@ -83,12 +93,28 @@ def repo_names(program) -> Set[str]:
     return names
 
 
+# standard-library building blocks whose appearance changes the control / data-flow STRUCTURE of a function (a context-manager stack
+# instead of try/finally, a fold instead of a loop, dispatch on type instead of if/else, ...)
+_STRUCTURAL_MODULES = ("contextlib.", "functools.", "itertools.", "collections.", "operator.", "abc.", "bisect.", "heapq.")
+
+
 def shape_of(program) -> Dict[str, List[str]]:
     rn = repo_names(program)
     out: Dict[str, List[str]] = {}
     for m in program.modules.values():
         for f in m.all_funcs:
-            out[f.fq] = sorted(called_names(f.node) & rn)
+            names = called_names(f.node) & rn
+            for n in ast.walk(f.node):
+                if isinstance(n, ast.Call):
+                    try:
+                        r = program.resolve_call(f, n)
+                    except Exception:
+                        r = None
+                    if isinstance(r, tuple) and r and r[0] == "ext" and isinstance(r[1], str) and r[1].startswith(_STRUCTURAL_MODULES) and r[1] not in ("functools.partial", "functools.wraps", "contextlib.suppress"):
+                        names.add("ext:" + r[1])
+                    elif hasattr(r, "decorators") and any(d.split(".")[-1].split("(")[0] in ("singledispatch", "singledispatchmethod") for d in getattr(r, "decorators", [])):
+                        names.add("ext:functools.singledispatch")  # dispatch on the argument's type: which body runs is not in the call
+            out[f.fq] = sorted(names)
     return out
 
 
@@ -109,7 +135,7 @@ def restructured(program, fq: str, baseline: Dict[str, List[str]], current: Dict
     # a name the pinned tree does not define at all: a helper / class / hook introduced by the restructuring (calling an EXISTING
     # function of the package from a new place is an ordinary edit, not a new structure)
     old_names = getattr(load_baseline, "names", set())
-    return sorted(n for n in set(current[fq]) - set(baseline[fq]) if n not in old_names)
+    return sorted(n for n in set(current[fq]) - set(baseline[fq]) if (n not in old_names or n.startswith("ext:")) and not n.startswith("_undecorated_"))  # (N11's own helper names)
 
 
 if __name__ == "__main__":
